@@ -141,6 +141,7 @@ type discAnalysis struct {
 	inprog map[string]bool
 	ctxInit bool
 	impls []*types.Named // implementation types reachable through an embedded interface (baseScreen -> tScreen)
+	waitSites map[string]bool // C06: wg.Wait call sites -> reached only with the lock released
 }
 
 func (d *discAnalysis) site(name string, ok bool, src string, pos token.Pos) {
@@ -361,6 +362,11 @@ func (d *discAnalysis) analyse(fn *ssa.Function, in heldSet) heldSet {
 			case *ssa.Call:
 				cc := x.Common()
 				callee := cc.StaticCallee()
+				if d.waitSites != nil && callee != nil && callee.String() == "(*sync.WaitGroup).Wait" {
+					k := fmt.Sprintf("%s.%s/wait-not-holding-lock#%s", d.lc.Type, name, ord("call", ins))
+					ok, seen := d.waitSites[k]
+					d.waitSites[k] = (!seen || ok) && !cur.mayHeld()
+				}
 				switch {
 				case isMutexMethod(callee, "Lock"):
 					d.site(fmt.Sprintf("%s.%s/lock-not-held#%s", d.lc.Type, name, ord("call", ins)), !cur.mayHeld(),
